@@ -23,3 +23,50 @@ Definition fmr_ctr (l : list H) : H :=
   match fin (fold_left (fun c h => incr h c) l []) None with Some r => r | None => zero end.
 End FMR.
 Arguments pairup {H}. Arguments levels {H}. Arguments fmr_spec {H}. Arguments incr {H}. Arguments fin {H}. Arguments fmr_ctr {H}.
+
+(* ---------------------------------------------------------------------------------------------------------------------
+   fmr_impl: the code of fast_merkle_root as written — a 32-entry array `inner` (stale entries are kept, never read), a
+   counter `count`, the carry loop `while count & (1 << level) == 0` and the final sweep — with every loop on fuel 32 (the
+   number of levels a u32 counter can address; `1u32 << 32` would be a shift overflow) and `None` when the fuel runs out.
+   Proofs/FastMerkleImpl.v shows it never runs out below 2^32 leaves and returns fmr_ctr, hence fmr_spec. *)
+From Coq Require Import NArith.
+Section FMRIMPL.
+Variable H : Type. Variable zero : H. Variable cmp : H -> H -> H.
+Fixpoint set_nth (k : nat) (x : H) (l : list H) : list H :=
+  match l, k with [], _ => [] | _ :: r, O => x :: r | y :: r, S k' => y :: set_nth k' x r end.
+Definition bit (count : N) (level : nat) : bool := N.testbit count (N.of_nat level).      (* count & (1 << level) != 0 *)
+(* while count & (1 << level) == 0 { temp = cmp(inner[level], temp); level += 1 } *)
+Fixpoint carry (fuel : nat) (inner : list H) (count : N) (level : nat) (temp : H) : option (nat * H) :=
+  match fuel with O => None | S f =>
+    if bit count level then Some (level, temp) else carry f inner count (S level) (cmp (nth level inner zero) temp) end.
+Definition push_leaf (st : list H * N) (leaf : H) : option (list H * N) :=
+  let '(inner, count) := st in
+  let count' := (count + 1)%N in
+  if N.leb 4294967296 count' then None else
+  match carry 33 inner count' 0 leaf with
+  | Some (level, temp) => if Nat.ltb level 32 then Some (set_nth level temp inner, count') else None
+  | None => None end.
+Fixpoint push_all (st : list H * N) (ls : list H) : option (list H * N) :=
+  match ls with [] => Some st | l :: r => match push_leaf st l with Some st' => push_all st' r | None => None end end.
+(* while count & (1 << level) == 0 { level += 1 } *)
+Fixpoint lowest (fuel : nat) (count : N) (level : nat) : option nat :=
+  match fuel with O => None | S f => if bit count level then Some level else lowest f count (S level) end.
+(* while count != (1 << level) { count += 1 << level; level += 1; <carry loop on result> } *)
+Fixpoint sweep (fuel : nat) (inner : list H) (count : N) (level : nat) (result : H) : option H :=
+  match fuel with O => None | S f =>
+    if N.eqb count (N.shiftl 1 (N.of_nat level)) then Some result
+    else let count' := (count + N.shiftl 1 (N.of_nat level))%N in
+         if N.leb 4294967296 count' then None            (* `count += 1 << level` would overflow the u32 counter *)
+         else match carry 33 inner count' (S level) result with
+         | Some (level', result') => sweep f inner count' level' result'
+         | None => None end end.
+Definition fmr_impl (ls : list H) : option H :=
+  match ls with
+  | [] => Some zero
+  | _ => match push_all (repeat zero 32, 0%N) ls with
+         | Some (inner, count) => match lowest 33 count 0 with
+                                  | Some level => sweep 33 inner count level (nth level inner zero)
+                                  | None => None end
+         | None => None end end.
+End FMRIMPL.
+Arguments fmr_impl {H}.
